@@ -3,14 +3,25 @@
    steps; a step is a diff file (its lines), the implementation's codec on every
    distinct argument, the error class rdb.ApplyDiff returned, the full dump
    afterwards and, for a diff A -> B made by the harness, the dump of a fresh
-   compilation of B. *)
-From DnsV Require Export Model.Diff.
+   compilation of B.
+   A huge-fail case (mkhuge) is a diff of more than rdb.DefaultBatchSize records that one
+   line makes inapplicable; only that line is part of the case (see model_ok). *)
+From DnsV Require Export Model.Diff Model.DiffLine.
 Open Scope N_scope.
 
 Definition dump := list (bytes * list bytes).
 Record step := mkstep { slines : list bytes; stable : list (bytes * option (list kv));
                         serr : N; sexpect_ok : bool; safter : dump; sfresh : option dump }.
-Record case := mk { cdb0 : dump; csteps : list step }.
+Inductive case :=
+| mk (cdb0 : dump) (csteps : list step)
+(* hbad: the offending line; htable: the codec on its argument; hpre: what the database held
+   under the keys of its records; hreadable: the codec accepted every other line of the diff
+   and hadded: another line adds one of its records (both established by the harness while it
+   generated the diff); hrecords: records of the lines before it; hbatch: rdb.DefaultBatchSize;
+   herr, hunchanged: what rdb.ApplyDiff returned and whether the full dump afterwards was the
+   full dump before *)
+| mkhuge (hbad : bytes) (htable : list (bytes * option (list kv))) (hpre : dump)
+         (hreadable hadded : bool) (hrecords hbatch : N) (herr : N) (hunchanged : bool).
 
 Fixpoint dlookup (d : dump) (k : bytes) : list bytes :=
   match d with [] => [] | (k', vs) :: r => if bytes_eqb k' k then vs else dlookup r k end.
@@ -47,8 +58,28 @@ Fixpoint model_steps_ok (pre : dump) (sts : list step) : bool :=
   | st :: r => model_step_ok pre st && model_steps_ok (safter st) r
   end.
 
-(* correspondence: the model computes what the implementation did *)
-Definition model_ok (c : case) : bool := model_steps_ok (cdb0 c) (csteps c).
+(* some record the line deletes is not among the values its key held *)
+Definition deletes_absent (conv : bytes -> result (list kv)) (pre : dump) (l : bytes) : bool :=
+  existsb (fun p => negb (existsb (bytes_eqb (snd p)) (dlookup pre (fst p)))) (line_dels conv l).
+
+(* correspondence: the model computes what the implementation did.
+   For mkhuge the model's outcome is NOT obtained by evaluating apply_diff on the 100000+
+   lines but by theorem: C08_failing_line_anywhere_is_noop (a line with line_okb = false
+   anywhere in a diff: error E_CONV or E_BADOP, store unchanged; with all other lines
+   readable the error is the one collect gives for this line) and
+   C08_absent_delete_anywhere_is_noop (all lines readable, a deleted value that the key does
+   not hold and the diff does not add: E_NXVAL, store unchanged).  What is evaluated here are
+   the hypotheses of these theorems that concern the offending line. *)
+Definition model_ok (c : case) : bool :=
+  match c with
+  | mk db0 sts => model_steps_ok db0 sts
+  | mkhuge bad table pre readable added _ _ err unchanged =>
+      let conv := tconv table in
+      readable &&
+      (if negb (line_okb conv bad)
+       then match collect conv [bad] [] [] with Err e => (err =? e) && unchanged | Ok _ => false end
+       else negb added && deletes_absent conv pre bad && (err =? E_NXVAL) && unchanged)
+  end.
 
 Fixpoint model_trace (pre : dump) (sts : list step) : list (N * dump) :=
   match sts with
@@ -58,7 +89,12 @@ Fixpoint model_trace (pre : dump) (sts : list step) : list (N * dump) :=
       let '(db', e) := apply_diff_effect (tconv (stable st)) kv_isort (of_dump pre) (slines st) in
       (e, map (fun k => (k, vals db' k)) keys) :: model_trace (safter st) r
   end.
-Definition model_out (c : case) := model_trace (cdb0 c) (csteps c).
+Definition model_out (c : case) :=
+  match c with
+  | mk db0 sts => model_trace db0 sts
+  | mkhuge bad table pre _ _ _ _ _ _ =>
+      [(match collect (tconv table) [bad] [] [] with Err e => e | Ok _ => if deletes_absent (tconv table) pre bad then E_NXVAL else 0 end, pre)]
+  end.
 
 (* ---------------------------------------------------------------- property *)
 
@@ -122,4 +158,17 @@ Definition dump_wf (d : dump) : bool := forallb (fun p => match snd p with [] =>
 
 (* the property itself, on the implementation's observations *)
 Definition spec_ok (c : case) : bool :=
-  dump_wf (cdb0 c) && forallb (fun st => dump_wf (safter st)) (csteps c) && spec_steps_ok (cdb0 c) (csteps c).
+  match c with
+  | mk db0 sts => dump_wf db0 && forallb (fun st => dump_wf (safter st)) sts && spec_steps_ok db0 sts
+  | mkhuge bad table pre readable added _ _ err unchanged =>
+      (* a diff with a malformed or rejected line, or (all lines readable) with a deletion of a
+         value that is neither held nor added, must fail; a diff that fails leaves the database
+         exactly as it was, however many records precede the failure *)
+      let must_fail :=
+        match read_diff table [bad] with
+        | None => true
+        | Some (_, dels) => readable && negb added &&
+                            existsb (fun p => negb (msub_b [snd p] (dlookup pre (fst p)))) dels
+        end in
+      if err =? 0 then negb must_fail else unchanged
+  end.
